@@ -20,7 +20,9 @@ Import ListNotations.
     is untouched, or it is the invoking workspace and its disk state at command start is the
     tree of that workspace's working-copy commit in an operation that exists when the
     command's snapshot phase is over (an earlier operation, or the first operation the command
-    adds — i.e. before the command's own operations and its checkout) — or the invoking
+    adds — the first two for [update-stale] and for the recovery of a working copy whose
+    operation is lost, where a recovery operation precedes the snapshot — i.e. before the
+    command's own operations and its checkout) — or the invoking
     workspace is absent from the view of the operation the command loads (known finding
     [workspace-absent-from-view]). *)
 Theorem C40_recorded_before_overwrite : forall (evs : list event) (st stf : state),
@@ -31,7 +33,7 @@ Theorem C40_recorded_before_overwrite : forall (evs : list event) (st stf : stat
     exists ws', lookupN w (e_ws_post ev) = Some ws'
       /\ (w_disk ws' = w_disk ws
           \/ (w = e_ws ev
-              /\ ((exists i, tree_of (s_ops st ++ firstn 1 (e_ops ev)) i w = Some (w_disk ws))
+              /\ ((exists i, tree_of (s_ops st ++ firstn (early_n ev) (e_ops ev)) i w = Some (w_disk ws))
                   \/ absent_from_view st w = true)))) st evs.
 Proof. exact run_step_safe. Qed.
 
@@ -65,12 +67,23 @@ Theorem C40_stale_aborts : forall (st st' : state) (ev : event) (h : nat) (ws : 
   e_ops ev = [] /\ e_ws_post ev = s_ws st.
 Proof. intros st st' ev. exact (accept_stale_aborts st ev st'). Qed.
 
+(** Recovery of a working copy whose operation is lost ([jj workspace update-stale] after
+    [jj op abandon] and [jj util gc]): the disk is not touched, and after the command the
+    workspace records exactly the disk it found — which the last of at most two new operations
+    (recovery, then snapshot) has as the workspace's working-copy tree. *)
+Theorem C40_recovery_keeps_disk : forall (st : state) (ev : event) (h : nat) (ws : wsst) hs x extra,
+  exp_recover st ev h ws false = Some (hs, Some x, extra) ->
+  w_disk x = w_disk ws /\ w_tree x = w_disk ws
+  /\ tree_of (s_ops st ++ e_ops ev) (w_op x) (e_ws ev) = Some (w_disk ws).
+Proof. exact recover_keeps_disk. Qed.
+
 (** Meaning of the direct oracle evaluated on the real observations ([rec] enumerates
     (operation, workspace, tree of its working-copy commit) over the whole final operation
     log): every workspace whose disk changed during a command, and the invoking workspace of
     every successful snapshotting command, has its pre-command disk state in an operation that
     exists when the command ends — unless (non-strict only) it is the invoking workspace and
-    it is absent from the loaded view. *)
+    it is absent from the loaded view; and no command ended in a panic or internal error
+    (status 3). *)
 Theorem C40_checker_sound : forall (strict : bool) (rec : list (nat * N * N)) (evs : list event) (st : state),
   run_okb strict rec st evs = true ->
   (fix ok (st : state) (evs : list event) : Prop :=
@@ -78,17 +91,17 @@ Theorem C40_checker_sound : forall (strict : bool) (rec : list (nat * N * N)) (e
      | [] => True
      | ev :: t =>
          (e_kind ev <> KEdit ->
+          e_status ev <> 3%N /\
           forall w ws, lookupN w (s_ws st) = Some ws ->
             ((match lookupN w (e_ws_post ev) with
               | Some ws' => w_disk ws' <> w_disk ws
               | None => True
               end)
              \/ (w = e_ws ev /\ e_status ev = 0%N /\ absent_from_view st w = false
-                 /\ (e_kind ev = KNormal \/ e_kind ev = KUpdateStale
-                     \/ exists nw, e_kind ev = KWorkspaceAdd nw))) ->
+                 /\ snap_kind (e_kind ev) = true)) ->
             (exists i, i < length (s_ops st) + length (e_ops ev) /\ In (i, w, w_disk ws) rec)
             \/ (strict = false /\ w = e_ws ev /\ absent_from_view st w = true))
-         /\ ok (mk_state (s_ops st ++ e_ops ev) (e_heads ev) (e_ws_post ev)) t
+         /\ ok (mk_state (s_ops st ++ e_ops ev) (e_heads ev) (e_ws_post ev) (lost_after st ev)) t
      end) st evs.
 Proof.
   intros strict rec evs. induction evs as [|ev t IH]; intros st H; cbn [run_okb] in H; [exact I|].
@@ -113,11 +126,11 @@ Definition C40_full : Prop := forall (st st' : state) (ev : event),
   forall w ws, lookupN w (s_ws st) = Some ws ->
   exists ws', lookupN w (s_ws st') = Some ws'
     /\ (w_disk ws' = w_disk ws
-        \/ exists i, tree_of (s_ops st ++ firstn 1 (e_ops ev)) i w = Some (w_disk ws)).
+        \/ exists i, tree_of (s_ops st ++ firstn (early_n ev) (e_ops ev)) i w = Some (w_disk ws)).
 
 Definition witness_state : state :=
   mk_state [mk_op [] []; mk_op [0] [(0%N, 0%N)]] [1]
-           [(0%N, mk_ws 0 0 1); (1%N, mk_ws 7 5 1)].
+           [(0%N, mk_ws 0 0 1); (1%N, mk_ws 7 5 1)] [].
 Definition witness_event : event :=
   mk_event 1%N KNormal 0%N [mk_op [1] [(0%N, 0%N); (1%N, 9%N)]] [2]
            [(0%N, mk_ws 0 0 1); (1%N, mk_ws 8 9 2)].
@@ -127,7 +140,7 @@ Proof.
   intros H.
   assert (A : accept witness_state witness_event
               = Some (mk_state [mk_op [] []; mk_op [0] [(0%N, 0%N)]; mk_op [1] [(0%N, 0%N); (1%N, 9%N)]]
-                               [2] [(0%N, mk_ws 0 0 1); (1%N, mk_ws 8 9 2)]))
+                               [2] [(0%N, mk_ws 0 0 1); (1%N, mk_ws 8 9 2)] []))
     by (vm_compute; reflexivity).
   assert (K : e_kind witness_event <> KEdit) by (cbn; discriminate).
   destruct (H _ _ _ A K 1%N (mk_ws 7 5 1) eq_refl) as [ws' [L [D|[i D]]]].
@@ -139,7 +152,7 @@ Qed.
 (** Non-vacuity: edit, command with a snapshot operation and a checkout; a command with
     [--ignore-working-copy] that makes the workspace stale; the stale error; update-stale. *)
 Example C40_nonvacuous :
-  let st0 := mk_state [mk_op [] []; mk_op [0] [(0%N, 0%N)]] [1] [(0%N, mk_ws 0 0 1)] in
+  let st0 := mk_state [mk_op [] []; mk_op [0] [(0%N, 0%N)]] [1] [(0%N, mk_ws 0 0 1)] [] in
   let e1 := mk_event 0%N KEdit 0%N [] [1] [(0%N, mk_ws 1 0 1)] in
   let e2 := mk_event 0%N KNormal 0%N [mk_op [1] [(0%N, 1%N)]; mk_op [2] [(0%N, 0%N)]] [3]
                      [(0%N, mk_ws 0 0 3)] in
